@@ -2377,7 +2377,7 @@ column_41			(vbi_page *		pg,
 	black0 = TRUE;
 	cont39 = TRUE;
 
-	for (row = 1; row <= 24; ++row) {
+	for (row = 1; row <= 23; ++row) {
 		if (0x0020 != acp[0].unicode
 		    || (VBI_BLACK != acp[0].background
 			&& 32 != acp[0].background)) {
@@ -2398,7 +2398,7 @@ column_41			(vbi_page *		pg,
 	acp = pg->text + 41;
 
 	if (!black0 && cont39) {
-		for (row = 1; row <= 24; ++row) {
+		for (row = 1; row <= 23; ++row) {
 			acp[40] = acp[39];
 
 			if (!vbi_is_gfx (acp[39].unicode))
@@ -2416,7 +2416,7 @@ column_41			(vbi_page *		pg,
 		ac.background	= ext->background_clut + VBI_BLACK;
 		ac.opacity	= pg->page_opacity[1];
 
-		for (row = 1; row <= 24; ++row) {
+		for (row = 1; row <= 23; ++row) {
 			acp[40] = ac;
 			acp += 41;
 		}
